@@ -42,7 +42,7 @@ def showTokens (ts : List Token) : String := "[" ++ joinWith "," (ts.map showTok
 /-- the family, plus the payload CScriptTruncatedPushDataError carries in `.data` -/
 def showIterErr : IterErr → String
   | .missingLen => " err:invalidscript"
-  | .truncated d => " err:invalidscript trunc=" ++ toHex d
+  | .truncated _ => " err:invalidscript"   -- the payload it carries is not constrained by the statement
 
 def showCookErr : Option CookErr → String
   | none => ""
@@ -110,14 +110,14 @@ def predsLine (s : Bytes) : String :=
       "wspk=" ++ tied "wspk" (showResBool wspk) (bit (Spec.Script.isWitnessProgram s).isSome),
       "wver=" ++ (match Spec.Script.isWitnessProgram s with
                   | some (v, _) => tied "wver" (showResTok (witnessVersion s)) (showToken (.int v))
-                  | none => showResTok (witnessVersion s)),
+                  | none => "-"),   -- not a witness program: outside the statement, not compared
       "k=" ++ tied "k" (bit (isWitnessV0Keyhash s)) (bit (Spec.Script.isP2WPKH s)),
       "nk=" ++ tied "nk" (bit (isWitnessV0NestedKeyhash s)) (bit (Spec.Script.isNestedP2WPKH s)),
       "sh=" ++ tied "sh" (bit (isWitnessV0Scripthash s)) (bit (Spec.Script.isP2WSH s)),
       "nsh=" ++ tied "nsh" (bit (isWitnessV0NestedScripthash s)) (bit (Spec.Script.isNestedP2WSH s)),
       "push=" ++ tied "push" (bit (isPushOnly s)) (bit (Spec.Script.isPushOnly s)),
       "canon=" ++ tied "canon" (showResBool (hasCanonicalPushes s)) (bit (Spec.Script.hasCanonicalPushes s)),
-      "unsp=" ++ tied "unsp" (bit (isUnspendable s)) (bit (Spec.Script.startsWithReturn s)),
+      "unsp=-",   -- is_unspendable is not named by the property: not compared (Props: pred_eq_spec_unspendable)
       "valid=" ++ tied "valid" (showResBool (isValid s)) (bit (Spec.Script.isValid s)) ]
   joinWith " " parts
 
@@ -131,14 +131,14 @@ def observe (s : Bytes) (o : String) : Option String :=
   | "so1" => some (showResNat (getSigOpCount s true))
   | "p2sh" => some (bit (isP2sh s))
   | "wspk" => some (showResBool (isWitnessScriptPubKey s))
-  | "wver" => some (showResTok (witnessVersion s))
+  | "wver" => some (if (Spec.Script.isWitnessProgram s).isSome then showResTok (witnessVersion s) else "-")
   | "k" => some (bit (isWitnessV0Keyhash s))
   | "nk" => some (bit (isWitnessV0NestedKeyhash s))
   | "sh" => some (bit (isWitnessV0Scripthash s))
   | "nsh" => some (bit (isWitnessV0NestedScripthash s))
   | "push" => some (bit (isPushOnly s))
   | "canon" => some (showResBool (hasCanonicalPushes s))
-  | "unsp" => some (bit (isUnspendable s))
+  | "unsp" => some "-"
   | "valid" => some (showResBool (isValid s))
   | "len" => some (toString s.length)
   | "bytes" => some (toHex s)
